@@ -12,8 +12,9 @@ RULE = ("writer runs: 1..300 records (mostly 1..20), names of 1-5 non-blank prin
         "the boundary list (0, 99998..100001, 199999, 200000, 10^7 ...) or uniform in [0,10^5) / [0,10^7], coordinates that "
         "fit the field (zero, k+0.5 units rounding boundaries, the widest value that fits, tiny values rounding to +-0, "
         "integers, log-uniform magnitudes, both signs) and, in K only, values too wide for the field; decimals 1..6 or the "
-        "default format, velocities on/off, box default / 3-vector / diagonal 3x3 / triclinic (tiny and negative-zero "
-        "off-diagonals included), title default / random printable / with trailing newline / empty / a bare newline, count declared or not; a "
+        "default format, velocities on/off, box default / 3-vector / diagonal 3x3 / triclinic (single off-diagonal entry "
+        "of either sign in each slot, mixed-sign subsets, exactly cancelling pairs and triples, all-negative, tiny entries "
+        "around 5e-6 of both signs, zeros and negative zeros in some slots, dense), title default / random printable / with trailing newline / empty / a bare newline, count declared or not; a "
         "malformed writer stream (velocity mismatch between records, wrong declared count). A case is non-trivial when "
         "distinct.")
 
@@ -178,6 +179,17 @@ CORPUS = [
      [(1, "A", "B", 1, 1.234565, -2.5, 0.000004), (1, "A", "C", 2, 9999.999994, -999.999994, -0.000004)]),
     ({"title": None, "natoms": None, "fmt": (7, 2), "box": ("default",)},
      [(7, "LIG", "C1", 7, 0.125, 0.135, -0.005, 0.0625, -0.0005, 99.9994)]),
+    # triclinic boxes whose off-diagonal entries cancel in a signed sum (pair, triple) / are all negative:
+    # nine numbers must be written (seeded C13-3, C05-3)
+    ({"title": "cancelling pair", "natoms": None, "fmt": None,
+      "box": ("mat", [[3.0, 0.0, 0.0], [1.5, 3.0, 0.0], [-1.5, 0.0, 3.0]])},
+     [(1, "SOL", "OW", 1, 0.1, 0.2, 0.3)]),
+    ({"title": "cancelling triple", "natoms": 1, "fmt": None,
+      "box": ("mat", [[4.0, 0.0, 0.0], [0.5, 4.0, 0.0], [0.25, -0.75, 4.0]])},
+     [(1, "SOL", "OW", 1, 0.1, 0.2, 0.3)]),
+    ({"title": "monoclinic, beta > 90", "natoms": None, "fmt": None,
+      "box": ("mat", [[4.0, 0.0, 0.0], [0.0, 3.5, 0.0], [-0.77646, 0.0, 2.89778]])},
+     [(1, "SOL", "OW", 1, 0.1, 0.2, 0.3)]),
     # empty title (IndexError on comment[-1] before efbff8f), given as '' and as a bare newline
     ({"title": "", "natoms": None, "fmt": None, "box": ("vec", [2.0, 2.0, 2.0])},
      [(1, "SOL", "OW", 1, 0.1, 0.2, 0.3), (1, "SOL", "HW1", 2, 0.4, 0.5, 0.6)]),
